@@ -958,6 +958,11 @@ void __tsan_atomic_signal_fence(int) {}
       changed(me);                                                             \
     }                                                                          \
     __atomic_store_n(a, v, __ATOMIC_SEQ_CST);                                  \
+    /* a second point AFTER a releasing store (an unlock): plain accesses that \
+       follow it are otherwise glued to the store, and "shared data used after \
+       the unlock" could never be overtaken by another thread */               \
+    if (is_rel(mo))                                                            \
+      sp(K_ATOMIC);                                                            \
   }                                                                            \
   T __tsan_atomic##N##_exchange(volatile T* a, T v, int mo) {                  \
     sp(K_ATOMIC);                                                              \
